@@ -30,6 +30,8 @@ def to_rows(vals):
             rows.append(['str', v[1]] + list(v[2]))
         elif v[0] == 'nn':
             rows.append(['nn', v[1], v[2], v[3]])
+        elif v[0] == 'nninit':
+            rows.append(['nninit', v[1], v[2], v[3], v[4], v[5]])
         elif v[0] == 'mfile':
             rows.append(['mfile', v[1], v[2], v[3], v[4]])
         elif v[0] == 'gfile':
